@@ -715,3 +715,20 @@ func init() {
 	reg(parse(false), "github.com/oklog/ulid/v2.Parse")
 	reg(parse(true), "github.com/oklog/ulid/v2.ParseStrict")
 }
+
+func init() {
+	// maps.clone is implemented in the runtime (linkname): shallow copy
+	reg(func(w *Worker, caller *frame, fn *ssa.Function, a []Value) Value {
+		iv, ok := a[0].(IfaceV)
+		if !ok {
+			panic(pathAbort{"unsupported", "maps.clone of non-interface"})
+		}
+		m, ok := iv.V.(*MapV)
+		if !ok || m == nil {
+			return iv
+		}
+		w.objSeq++
+		c := &MapV{Keys: append([]Value(nil), m.Keys...), Vals: append([]Value(nil), m.Vals...), KT: m.KT, VT: m.VT, ID: w.objSeq, Glob: w.inInit > 0}
+		return IfaceV{T: iv.T, V: c}
+	}, "maps.clone")
+}
